@@ -6,6 +6,8 @@
 //	keys        every valid parameter point of the key domain x key IDs x material shapes (private and public half)
 //	templates   every function of */*_key_templates.go
 //	keysets     keysets of size 1..3 over one representative per type URL x statuses x primary x every writer/reader pair
+//	odd-io      keysets read back through scripted io.Readers (short reads, data+EOF, persistent faults) and odd-but-legal
+//	            key-encryption AEADs (see oddio.go)
 //	foreign     proto encodings of big integers with stripped / extra leading zeros
 //	catalogue   completeness of the catalogue against the type URLs and template functions in the source tree
 //
@@ -1220,13 +1222,14 @@ func catalogueSection(x *h.X) {
 func main() {
 	keycat.RegisterFakeKMS()
 	h.Main("C12", "exploration",
-		"every key family x full over-large parameter product (valid = NewParameters accepts) x key IDs x material shapes (incl. leading-zero big integers, zero-padded constructor inputs); every key template; keysets of size 1..3 over one representative per type URL (all variants for size 1) x primary position x statuses x writer/reader pairs (72: cleartext, no-secrets, encrypted under 3 KEK types x AD {nil, empty, 5 bytes} x Write/WithAssociatedData/WithContext x binary/JSON/mem). A case is non-trivial when at least one valid object was round-tripped; distinct = distinct choice vectors.",
+		"every key family x full over-large parameter product (valid = NewParameters accepts) x key IDs x material shapes (incl. leading-zero big integers, zero-padded constructor inputs); every key template; keysets of size 1..3 over one representative per type URL (all variants for size 1) x primary position x statuses x writer/reader pairs (72: cleartext, no-secrets, encrypted under 3 KEK types x AD {nil, empty, 5 bytes} x Write/WithAssociatedData/WithContext x binary/JSON/mem). keysets-odd-io: 5 key types x keyset shapes x every API x binary/JSON(/mem) with at most 2 non-default environment answers (reader delivery policy, data+EOF, Len(), persistent reader fault x every/selected byte offsets, KEK answer modes on write/read, failing KEK call, associated data). A case is non-trivial when at least one valid object was round-tripped; distinct = distinct choice vectors.",
 		[]h.Section{
 			{Name: "parameters", Body: paramsSection, Bound: -1},
 			{Name: "keys", Body: keysSection, Bound: -1},
 			{Name: "templates", Body: templatesSection, Bound: -1},
 			{Name: "keysets", Body: keysetSection, Bound: -1},
 			{Name: "rsa-odd-modulus-keysets", Body: rsaOddSection, Bound: -1},
+			{Name: "keysets-odd-io", Body: oddIOSection, Bound: oddIOBound()},
 			{Name: "foreign-encodings", Body: foreignSection, Bound: -1},
 			{Name: "catalogue", Body: catalogueSection, Bound: -1},
 		})
